@@ -13,7 +13,7 @@ import (
 func init() {
 	Register(&Property{
 		ID: "C05",
-		Explanation: "Decides that the transaction envelope of multi-relationship writes is structurally complete: (R05.1) every write statement of persistence/sql executes inside a function literal passed to a Transaction call; (R05.2) inside such a literal every context argument derives from the literal's own ctx parameter (which carries the transaction), and every statement runs on a connection obtained inside the literal from that ctx -- never on a captured connection or the persister's raw conn; (R05.3) inside such a literal no error is dropped: every non-nil path of every error returned by a call reaches the literal's return; (R05.4) in each write handler the mapping (Mapper().FromTuple) and the storage write happen in the same Transaction literal; (R05.5) a function that performs more than one write operation performs all of them inside one single Transaction literal. " +
+		Explanation: "Decides that the transaction envelope of multi-relationship writes is structurally complete: (R05.1) every write statement of persistence/sql executes inside a function literal passed to a Transaction call; (R05.2) inside such a literal every context argument derives from the literal's own ctx parameter (which carries the transaction), and every statement runs on a connection obtained inside the literal from that ctx -- never on a captured connection or the persister's raw conn; (R05.3) inside such a literal no error is dropped: every non-nil path of every error returned by a call reaches the literal's return; (R05.4) in each write handler the mapping (Mapper().FromTuple) and the storage write happen in the same Transaction literal; (R05.5) a function that performs more than one write operation performs all of them inside one single Transaction literal, and that literal's Transaction call is not inside a loop; (R05.6) a write function iterates its input tuples whole (range, slices.Chunk) or in tiles where each chunk starts where the previous one ended. " +
 			"Not decided: isolation level, popx.Transaction's commit-on-nil / rollback-on-error (trusted), crash behaviour of the database.",
 		Assumptions: []string{
 			"popx.Transaction commits iff the callback returns nil and joins an ambient transaction found in ctx",
@@ -365,11 +365,30 @@ func runC05(c *Ctx) {
 				lits[l] = true
 			}
 		}
-		r.Check(!outside && len(lits) == 1, "R05.5", core.FuncName(fn), fmt.Sprintf("%d write operations", len(ops)), p.Pos(fn.Pos()),
-			"all write operations of the function run inside one Transaction literal",
-			fmt.Sprintf("the function performs several write operations that are not all inside one single Transaction literal (%d literal(s), outside any: %v): a failure between them leaves a partial result", len(lits), outside))
+		// the one literal must be entered once: its Transaction call is not in a loop
+		repeated := false
+		for l := range lits {
+			if site, ok := tx[l]; ok {
+				if core.InLoop(site.Block()) {
+					repeated = true
+				}
+				for q := site.Parent(); q != nil && q != fn; q = q.Parent() {
+					if strings.Contains(q.Synthetic, "range-over-func") {
+						repeated = true
+					}
+				}
+			}
+		}
+		why := fmt.Sprintf("the function performs several write operations that are not all inside one single Transaction literal (%d literal(s), outside any: %v): a failure between them leaves a partial result", len(lits), outside)
+		if !outside && len(lits) == 1 && repeated {
+			why = "the Transaction call that encloses the write operations is itself inside a loop: each iteration commits on its own, a failure in a later iteration leaves the earlier ones stored"
+		}
+		r.Check(!outside && len(lits) == 1 && !repeated, "R05.5", core.FuncName(fn), fmt.Sprintf("%d write operations", len(ops)), p.Pos(fn.Pos()),
+			"all write operations of the function run inside one Transaction literal that is entered once", why)
 	}
 	r.Floor("R05.5", 4, "WriteRelationTuples, DeleteRelationTuples, TransactRelationTuples, MapStringsToUUIDs")
+
+	inputTuplesCovered(c, "R05.6", writeOps)
 }
 
 func sortStrings(in []string) []string {
@@ -380,4 +399,82 @@ func sortStrings(in []string) []string {
 		}
 	}
 	return out
+}
+
+// inputTuplesCovered: every input tuple reaches a statement: a write function
+// iterates its input slice whole (range, slices.Chunk) or cuts it into tiles
+// that cover it.
+func inputTuplesCovered(c *Ctx, rule string, writeOps map[*ssa.Function]bool) {
+	p, r := c.P, c.R
+	// R05.6 every input tuple reaches a statement: a write function iterates its
+	// input slice whole (range, slices.Chunk) or cuts it into tiles that cover it
+	nIn := 0
+	for top := range writeOps {
+		var inputs []ssa.Value
+		for _, par := range top.Params {
+			if sl, ok := par.Type().Underlying().(*types.Slice); ok {
+				if pt, ok := sl.Elem().(*types.Pointer); ok && core.IsNamed(pt.Elem(), relPkg, "RelationTuple") {
+					inputs = append(inputs, par)
+				}
+			}
+		}
+		if len(inputs) == 0 {
+			continue
+		}
+		nIn++
+		isInput := func(v ssa.Value) bool {
+			o := core.ValueOrigin(v)
+			if fv, ok := o.(*ssa.FreeVar); ok {
+				o = core.ValueOrigin(core.FreeVarBinding(fv))
+			}
+			for _, in := range inputs {
+				if o == in {
+					return true
+				}
+			}
+			return false
+		}
+		var bad []string
+		nSlices := 0
+		for _, g := range core.Closures(top) {
+			core.Instrs(g, func(b *ssa.BasicBlock, _ int, ins ssa.Instruction) {
+				sl, ok := ins.(*ssa.Slice)
+				if !ok || !isInput(sl.X) {
+					return
+				}
+				nSlices++
+				lowZero := sl.Low == nil
+				if k, isK := core.IntConst(sl.Low); sl.Low != nil && isK && k == 0 {
+					lowZero = true
+				}
+				if lowZero && sl.High == nil {
+					return // rs[:]
+				}
+				// a tile: low = phi(0, high)
+				if ph, ok := sl.Low.(*ssa.Phi); ok && core.InLoop(b) {
+					okTile := true
+					for _, e := range ph.Edges {
+						if k, isK := core.IntConst(e); isK && k == 0 {
+							continue
+						}
+						if e == sl.High || core.ValueOrigin(e) == core.ValueOrigin(sl.High) {
+							continue
+						}
+						okTile = false
+					}
+					if okTile {
+						return
+					}
+					bad = append(bad, fmt.Sprintf("%s: the chunks rs[lo:hi] do not tile the input: the next chunk does not start where this one ends, so tuples at the seams are skipped (or written twice)", p.Pos(sl.Pos())))
+					return
+				}
+				bad = append(bad, fmt.Sprintf("%s: the input slice is cut (%s) in a way that is not a recognised full iteration or tiling", p.Pos(sl.Pos()), sl.String()))
+			})
+		}
+		r.Check(len(bad) == 0, rule, core.FuncName(top), "input tuples covered", p.Pos(top.Pos()),
+			fmt.Sprintf("the input slice is only iterated whole or tiled (%d sub-slice expressions)", nSlices), strings.Join(bad, "; "))
+	}
+	if nIn < 2 {
+		r.Undecide(rule, "", "write functions with a tuple slice parameter", "", fmt.Sprintf("%d found (floor 2)", nIn))
+	}
 }
